@@ -418,6 +418,10 @@ def step (line : String) : String :=
     match unhex s, w.toInt? with
     | some s, some w => withSpec (showOut (leftPadHex s w)) (Spec.Run.leftpad s w)
     | _, _ => "bad-op"
+  | ["fromstr", t] =>
+    match unhex t with
+    | some t => let a := s!"ok {Rest.digitsFromStr t} {Rest.algoFromStr t}"; withSpec a (some a)
+    | none => "bad-op"
   | ["musthex", s, w] =>
     match unhex s, w.toInt? with
     | some s, some w => withSpec (showOut (mustHexPadLeft s w)) (Spec.Run.musthex s w)
